@@ -67,13 +67,13 @@ def mkresp(r):
 
     st, meta, body = r
     if body is not None:
-        body = body[1] if body[0] == "s" else bytes.fromhex(body[1])
+        body = body[1] if body[0] == "s" else (b"Z" * body[1] if body[0] == "z" else bytes.fromhex(body[1]))
     return GeminiResponse(status=st, meta=meta, body=body)
 
 
 def enc_resp(r) -> str:
     st, meta, body = r
-    b = "n" if body is None else ("s:" + cps(body[1]) if body[0] == "s" else "b:" + (body[1] or "-"))
+    b = "n" if body is None else ("s:" + cps(body[1]) if body[0] == "s" else (f"z:{body[1]}" if body[0] == "z" else "b:" + (body[1] or "-")))
     return f"{st}/{cps(meta)}/{b}"
 
 
